@@ -23,8 +23,9 @@ CFGS = {
     'default': {},
     'small': {'hold_time': 9, 'idle_hold_time': 5, 'connect_retry_time': 40},
     'retry10': {'connect_retry_time': 10, 'hold_time': 30},
+    'idle0': {'idle_hold_time': 0, 'connect_retry_time': 20},      # no damping at all: the restart follows at once
 }
-DEPTH = {'quick': {'default': (3, 6), 'small': (3, 5), 'retry10': (3, 5)}, 'thorough': {'default': (4, 8), 'small': (4, 8), 'retry10': (4, 8)}}
+DEPTH = {'quick': {'default': (3, 6), 'small': (3, 5), 'retry10': (3, 5), 'idle0': (3, 5)}, 'thorough': {'default': (4, 8), 'small': (4, 8), 'retry10': (4, 8), 'idle0': (4, 7)}}
 PARTS = {'quick': 4, 'thorough': 5}
 WALKS = {'quick': (256, 250), 'thorough': (10000, 600)}
 BUDGET = {'quick': 300, 'thorough': 1000}
@@ -40,6 +41,12 @@ PREFIXES = [
     ('small', ['TICK', 'ACCEPT', 'OPEN_h1', 'TICK', 'ACCEPT']),
     ('retry10', ['TICK', 'TICK', 'TICK']),
     ('retry10', ['TICK', 'ACCEPT', 'OPEN', 'KA', 'STOP', 'START']),
+    # a peer that was never reachable since boot: refusals / unanswered attempts in a row must not slow the reconnect down
+    ('default', ['TICK', 'REFUSE'] * 6),
+    ('retry10', ['TICK'] * 9),
+    ('small', ['TICK', 'REFUSE', 'TICK', 'TICK', 'REFUSE', 'TICK', 'REFUSE', 'TICK', 'REFUSE']),
+    ('idle0', ['TICK', 'ACCEPT', 'OPEN', 'KA', 'NOTI_CEASE']),
+    ('idle0', ['TICK', 'REFUSE', 'TICK', 'REFUSE']),
 ]
 PREFIX_DEPTH = {'quick': 3, 'thorough': 5}
 
@@ -155,9 +162,9 @@ def plan(tier, seed):
     n, length = WALKS[tier]
     nshard = 4 if tier == 'quick' else 16
     for i in range(nshard):
-        shards.append(dict(kind='walk', seed=seed * 1000 + i, n=n // nshard, length=length, cfg=list(CFGS)[i % 3],
+        shards.append(dict(kind='walk', seed=seed * 1000 + i, n=n // nshard, length=length, cfg=list(CFGS)[i % len(CFGS)],
                            peer_hold=PEER_HOLDS[i % len(PEER_HOLDS)], defer=bool(i % 2)))
-        shards.append(dict(kind='walk', seed=seed * 1000 + 500 + i, n=n // nshard, length=length, cfg=list(CFGS)[i % 3],
+        shards.append(dict(kind='walk', seed=seed * 1000 + 500 + i, n=n // nshard, length=length, cfg=list(CFGS)[i % len(CFGS)],
                            peer_hold=PEER_HOLDS[i % len(PEER_HOLDS)], defer=bool(i % 2), fuzz=150 if tier == 'quick' else 1500))
     return shards
 
